@@ -440,6 +440,17 @@ func genHardening(g *core.Gen) {
 		}
 		g.Case("fast-add", nontrivial(tree, ops), mkLine(tree, ops))
 	}
+	// ---- chains around the 500-hash limit of LocateBlocks (thorough only: ~1000 ops per line)
+	if g.Thorough() {
+		for _, n := range []int{499, 500, 501} {
+			var tree []blk
+			for id := 1; id <= n; id++ {
+				tree = append(tree, blk{id, id - 1, 1, true, true, true, true, 0})
+			}
+			tree = append(tree, blk{n + 1, n - 3, 1, true, true, true, true, 0}) // a short fork near the tip
+			g.Case("long-chain", true, mkLine(tree, blockOps(idsOf(tree))))
+		}
+	}
 	// ---- 8 independent chains at once (no hidden shared state between instances)
 	for i, n := 0, g.N(4, 30); i < n; i++ {
 		parts := []string{"C02", "par"}
